@@ -11,7 +11,8 @@ LEVEL = ("Static error discipline on every density evaluation reachable from Cha
          "gates dominate Ok (R5); the no-U-turn-check options differ from the caller's options only in check_turning (R6); a leapfrog that ended in a fault is still counted exactly once by the acceptance "
          "collector, so a fault cannot turn the step-size statistic into 0/0 (R7, shared with C07-R7) and every divergent or successful leapfrog is registered with the collector exactly once (R8, shared with C07-R8). "
          "Does not decide value statements ('returned position is finite') or two-fault sequences."
-         " Added: every options object reaching extend() is the caller's options with at most check_turning overridden (R6 on MIR); MCLMC retry bookkeeping covers the step budget (R9 = C18-R4 analysis).")
+         " Added: every options object reaching extend() is the caller's options with at most check_turning overridden (R6 on MIR); MCLMC retry bookkeeping covers the step budget (R9 = C18-R4 analysis)."
+         " Added (round 4): a function that moves the persistent state out of self puts a state back before every error exit (R11, positive control planted).")
 EXPLANATION = ("ERR classification over MIR def-use for all bodies reachable in the call graph from the Chain entry points; three-valued "
                "evaluation of the branch conditions that control the Ok / Divergence / Err constructions.")
 TRUSTED = ["rustc nightly MIR/HIR", "nutsfacts extractor", "rules/err.py", "rules/c05.py"]
